@@ -15,3 +15,10 @@ Definition gen_variable_map_row_major_stmt : Prop :=
 Definition gen_variable_map_entrywise_stmt : Prop :=
   forall sh (cols : list Z) k, length cols = size_of sh -> k < size_of sh ->
     gen_variable_map_entry sh cols (nth k (index_tuples sh) []) = nth k cols 0%Z.
+
+(* composition with the generated allocation code (Gen/GenAlloc.v): for an unstructured Variable declared when the counter is c, the entry of
+   variable_map at the k-th index tuple is the column of the scalar variable with index c + k, whatever the column assignment col_of is *)
+From SageVerif Require Import Gen.GenAlloc.
+Definition gen_component_placement_stmt : Prop :=
+  forall sh c gen (col_of : Z -> Z) k, k < size_of sh ->
+    gen_variable_map_entry sh (map col_of (snd (gen_unstructured_populate c gen sh))) (nth k (index_tuples sh) []) = col_of (c + Z.of_nat k)%Z.
